@@ -587,7 +587,9 @@ func families(c *ev.Ctx, evalOne func(caseT)) {
 					ns2 := append(append([]string{}, ns...), "@c0", "@c1")
 					bs2 := append(append([]*gen.Node{}, bs...), edge(0, "@c1"), edge(0, names[n/2]))
 					evalOne(caseT{Root: gen.Obj(gen.P("x", gen.Ref("@c0"))), Names: ns2, Bodies: bs2})
-					c.Inc("family_graphs")
+					if c != nil {
+						c.Inc("family_graphs")
+					}
 				}
 			}
 		}
@@ -616,7 +618,9 @@ func families(c *ev.Ctx, evalOne func(caseT)) {
 				// typed-value diamond: or-list naming a type and a type that aliases it
 				evalOne(caseT{Root: gen.Int("1").With(gen.RL("or", gen.RuleItem{Lit: `"` + names[1] + `"`}, gen.RuleItem{Lit: `"` + names[n-1] + `"`})),
 					Names: names, Bodies: append(append([]*gen.Node{gen.Int("1")}, repeatAlias(names[n-1], n-2)...), gen.Int("1"))})
-				c.Inc("family_graphs")
+				if c != nil {
+					c.Inc("family_graphs")
+				}
 			}
 		}
 	}
@@ -644,4 +648,45 @@ func replay(raw stdjson.RawMessage) (bool, string) {
 	}
 	d, desc := eval(cs, nil)
 	return d != "", desc
+}
+
+// ForEachSchema enumerates type graphs (nothing missing) whose types are all
+// inhabited: n=1 rich, n=2 two-slot alphabets, plus the ring families with an
+// optional / array / terminating edge.
+func ForEachSchema(f func(sc.Case)) {
+	emit := func(cs caseT) {
+		if cs.Missing != 0 {
+			return
+		}
+		g := cs.graph()
+		if !g.AllInhabited() || !g.RootInhabited() {
+			return
+		}
+		f(cs.scCase())
+	}
+	for _, n := range []int{1, 2} {
+		names := []string{"@t0", "@t1"}[:n]
+		bs := bodies(names, n == 1, n == 1)
+		idx := make([]int, n)
+		var rec func(i int)
+		rec = func(i int) {
+			if i == n {
+				for _, root := range roots(names) {
+					cs := caseT{Root: root, Names: append(append([]string{}, names...), strType)}
+					for _, j := range idx {
+						cs.Bodies = append(cs.Bodies, bs[j])
+					}
+					cs.Bodies = append(cs.Bodies, strBody())
+					emit(cs)
+				}
+				return
+			}
+			for j := range bs {
+				idx[i] = j
+				rec(i + 1)
+			}
+		}
+		rec(0)
+	}
+	families(nil, emit)
 }
